@@ -540,7 +540,9 @@ func (db *Database) performFuzzySearch(query string, options SearchOptions) []Se
 		builder.WriteString(cmd.Command)
 		builder.WriteByte(' ')
 		builder.WriteString(cmd.Description)
-		targets[i] = builder.String()
+		// fuzzy.Find treats a NUL byte as end of input and then indexes past the
+		// pattern (index out of range); NUL carries no meaning here, so neutralise it.
+		targets[i] = strings.ReplaceAll(builder.String(), "\x00", " ")
 	}
 
 	// Perform fuzzy search
